@@ -8,6 +8,7 @@ harness against math/big and against the executable specification `Spec.Meaning.
 -/
 import JsonV.Lemmas.MeaningSpec
 import JsonV.Lemmas.MeaningStr
+import JsonV.Lemmas.MeaningEval
 import JsonV.Lemmas.GlueMeaningTree
 import JsonV.Lemmas.GlueMeaningFuel
 import JsonV.Lemmas.GlueMeaningUnquote
@@ -185,6 +186,32 @@ theorem iface_meaning (isAny opt : Bool) (c : Cache) (b : Bytes) (t : MTree) (h 
       | none => .error .range := by
   rw [iface_eq_fast fp isAny opt c c b]
   exact any_meaning fp c b t h hnd hdep
+
+/-! ### Total characterisation on valid texts; duplicate names are rejected -/
+
+/-- For EVERY text the RFC grammar accepts within the nesting limit — with or without duplicate names, with or without
+overflowing numbers — decoding into `any` gives exactly `evalV` of the spec tree: the replay, in document order, of
+"look the decoded name up among the members seen so far (duplicate ⇒ dup); numbers through `fp` (overflow ⇒ range)". -/
+theorem any_meaning_total (c : Cache) (b : Bytes) (t : MTree) (h : parseTree b = some t) (hdep : t.depth ≤ maxDepth) :
+    fast fp c b = JsonV.Lemmas.MeaningEval.evalV fp t :=
+  JsonV.Lemmas.MeaningEval.fast_eq_eval fp c b t h hdep
+
+/-- A valid text in which some object has two members with the same decoded name is rejected (default options), by
+every route: the result is an error, of class `dup` — or `range` if an overflowing number comes first. -/
+theorem dup_rejected (isAny opt : Bool) (c : Cache) (b : Bytes) (t : MTree) (h : parseTree b = some t)
+    (hdep : t.depth ≤ maxDepth) (hdup : t.noDup = false) :
+    ∃ e, unmarshalIface fp isAny opt c b = .error e ∧ (e = .dup ∨ (e = .range ∧ ∃ l, fp l = none)) := by
+  rw [iface_eq_fast fp isAny opt c c b, any_meaning_total fp c b t h hdep]
+  cases hv : JsonV.Lemmas.MeaningEval.evalV fp t with
+  | ok v =>
+    have := JsonV.Lemmas.MeaningEval.evalV_ok_noDup fp t v hv
+    rw [this] at hdup; cases hdup
+  | error e => exact ⟨e, rfl, JsonV.Lemmas.MeaningEval.evalV_err fp t e hv⟩
+
+/-- {"a":1,"a":2} -/
+def dupText : Bytes := [0x7B, 0x22, 0x61, 0x22, 0x3A, 0x31, 0x2C, 0x22, 0x61, 0x22, 0x3A, 0x32, 0x7D]
+example : parseTree dupText = some (.obj [([0x61], .num [0x31]), ([0x61], .num [0x32])]) := by rfl
+example : (MTree.obj [([0x61], .num [0x31]), ([0x61], .num [0x32])]).noDup = false := by rfl
 
 /-! ### Objects hold exactly their members, arrays keep order and length -/
 
